@@ -41,6 +41,13 @@ def dstep (s : DState) (toks : List String) : DState × List String :=
     -- rfbProcessArguments on the live screen, with the harness's extension registered
     let r := processArgs demoExt s.cfg [] flags
     ({ s with cfg := r.cfg }, [" ".intercalate ((if r.ok then "ok" else "fail") :: r.left)])
+  | ["badconn", id, kind] =>
+    -- a connection attempt that fails inside rfbNewClient: no record, nobody else affected
+    match id.toNat? with
+    | some id =>
+      if s.ever.contains id || !(kind = "0" || kind = "1") then (s, ["bad-op"]) else
+      ({ s with ever := insertSorted id s.ever }, ["refused"])
+    | none => (s, ["bad-op"])
   | ["rconn", id, mode] =>
     -- the real rfbReverseConnection: 1 = a viewer listens, 0 = connection refused, 2 = the
     -- new-client hook refuses the record; a failed attempt leaves no trace
